@@ -34,7 +34,9 @@ RULE = ("Hypothesis draws (declarations incl. bit fields, block tree of depth "
         "non-trivial = over the program's judged vectors the outermost "
         "condition of some block was seen both true and false; distinct by "
         "(block structure, condition shapes with operators, atom operand "
-        "formats)")
+        "formats); plus, systematically, every comparison operator between "
+        "every pair of operand kinds (4 register views, 8 variable formats), "
+        "plain and negated, on equal / adjacent / boundary values")
 ASSUMPTIONS = [
     "a comparison is judged when both compared values (and the intermediates "
     "of their operand expressions) fit W under the comparison's signedness "
@@ -226,6 +228,52 @@ def strategy(tier):
     return case_strategy(3)
 
 
+def enumerate_cases(tier):
+    """systematic part: every comparison operator between every pair of
+    operand widths and signednesses (registers, local and map variables),
+    plain and negated, with Else, on equal / adjacent / boundary values"""
+    kinds = [("reg", v, f) for v, f in (("r", "Q"), ("sr", "q"), ("w", "I"),
+                                        ("sw", "i"))] \
+        + [("var", None, f) for f in "bhiqBHIQ"]
+    for ka, va, fa in kinds:
+        for kb, vb, fb in kinds:
+            decls, regs = [], []
+            if ka == "reg":
+                regs.append({"no": 3, "view": va})
+                A, na = ["reg", va, 3], "r3"
+            else:
+                decls.append({"name": "v0", "kind": "local", "fmt": fa})
+                A, na = ["var", "v0"], "v0"
+            if kb == "reg":
+                regs.append({"no": 4, "view": vb})
+                B, nb = ["reg", vb, 4], "r4"
+            else:
+                decls.append({"name": "v1", "kind": "map", "fmt": fb})
+                B, nb = ["var", "v1"], "v1"
+            la, ha = dsl.fmt_range(fa)
+            lb, hb = dsl.fmt_range(fb)
+            lo, hi = max(la, lb), min(ha, hb)
+            base = [v for v in (-5, -1, 0, 5, lo, hi, -128, 127, 2**31 - 1,
+                                -2**31) if lo <= v <= hi]
+            vectors = []
+            for v in base:
+                for a, b in ((v, v), (v, v + 1), (v + 1, v)):
+                    if la <= a <= ha and lb <= b <= hb \
+                            and {na: a, nb: b} not in vectors:
+                        vectors.append({na: a, nb: b})
+            for op in CMPS:
+                for neg in (False, True):
+                    cond = ["cmp", op, A, B]
+                    if neg:
+                        cond = ["not", cond]
+                    yield {"decls": decls, "regs": regs,
+                           "prog": [["if", {"conds": [cond],
+                                            "body": [["mark", 1]],
+                                            "else": {"body": [["mark", 2]]}}],
+                                    ["mark", 3]],
+                           "vectors": vectors[:16], "nmarks": 3}
+
+
 # ----------------------------------------------------------------- oracle
 
 class Unjudged(Exception):
@@ -273,8 +321,14 @@ def eval_cond(c, env, fmts, info):
         if lwide and rnarrow and sb and b < 0 \
                 and (not sa or c01.has_and(c[2])):
             info["facts"].add("wide-left-vs-negative-narrow-right")
-        if (fa | fb) & {"negative-sw-register", "negative-intermediate"} \
-                and W == 32 and (lwide or rwide):
+        # a negative 32 bit value widened inside a 64 bit computation: on the
+        # right side (evaluated in 64 bit when the other side is wide), or
+        # inside a left side that has wide leaves itself.  A left side that
+        # is narrow as a whole is sign-extended by the comparison and is not
+        # part of this finding.
+        neg32 = {"negative-sw-register", "negative-intermediate"}
+        if W == 32 and ((fb & neg32 and (lwide or rwide))
+                        or (fa & neg32 and lwide)):
             info["facts"].add("narrow-negative-in-wide-comparison")
         if (a < 0 or b < 0):
             info["facts"].add("negative-compared")
